@@ -567,8 +567,11 @@ def mon_c05(tr: Trace) -> list[Violation]:
                 # (also one that follows a replay) sees the exception of the last failed execution
                 failures = 0
                 last_exc = None
+                ret_bad = any(a[0] == "ret" and a[1] == "bad" for a in sd["script"])  # a non-event return value fails the step
                 for e in execs:
                     st = e[3] or ""
+                    if ret_bad and st == "ok":
+                        st = "raise:bad-return"
                     ri = e[4] or {}
                     if e[0] != failures:
                         out.append(Violation("C05/retry_number_across_wait", f"{step} uid={uid}: an execution ran with retry_number {e[0]} after {failures} failed "
@@ -582,7 +585,8 @@ def mon_c05(tr: Trace) -> list[Violation]:
                         last_exc = st
                 # the WorkflowFailedEvent of this invocation reports every failed execution, those before the wait included
                 if failed_pubs and failed_pubs[0][0].step_name == step and all(x[2] is not None for x in execs):
-                    mine = [k for k, ex in lin.items() if k[0] == step and ex and (ex[-1][3] or "").startswith("raise:") and ex[-1][3] != "raise:WaitingForEvent"]
+                    mine = [k for k, ex in lin.items() if k[0] == step and ex and ex[-1][3] != "raise:WaitingForEvent" and
+                            ((ex[-1][3] or "").startswith("raise:") or (ret_bad and ex[-1][3] == "ok"))]
                     if mine == [(step, uid)] and failed_pubs[0][0].attempts != failures:
                         out.append(Violation("C05/reported_attempts_across_wait", f"WorkflowFailedEvent.attempts={failed_pubs[0][0].attempts} but {step} uid={uid} "
                                              f"failed {failures} times (statuses {[x[3] for x in execs]})", _replay(tr)))
@@ -768,35 +772,39 @@ def mon_c08(tr: Trace) -> list[Violation]:
                     break
             if dropped:
                 break
-    # per lineage, counted from the TRACE (not from the counts the state carries): a lineage is an event and everything
-    # returned by the invocations it (transitively) triggered, handler outputs included; ctx.send_event starts a new lineage
+    # per lineage, counted from the TRACE (not from the counts the state carries): the lineage of a failure is the chain of
+    # invocations that produced its input event (each event -> the invocation that returned it -> that invocation's input,
+    # for a handler the input of the failure it handled); ctx.send_event starts a new lineage.  Counted per PATH: an event
+    # accepted by two steps gives two branches, each with its own budget.
     if not spec.get("det_uids"):
-        parent: dict = {}
+        producer: dict = {}
         for rec in tr.steps:
             if rec[0] == "exit" and rec[5].get("ret") and rec[5]["ret"][1] is not None:
-                u = rec[2]
-                parent[rec[5]["ret"][1]] = u[2] if isinstance(u, tuple) else u
+                producer[rec[5]["ret"][1]] = (rec[1], rec[2])
+        # invocations that suspended in wait_for_event (before the repair their replay was a fresh EventAttempt: classifying fact)
+        suspended = {(rec[1], rec[2]) for rec in tr.steps if rec[0] == "exit" and rec[5].get("status") == "raise:WaitingForEvent"}
 
-        def root(u: Any) -> Any:
-            seen = set()
-            while u in parent and u not in seen:
+        def chain_of(u: Any) -> tuple[list, Any]:
+            ch: list = []
+            seen: set = set()
+            while u in producer and u not in seen:
                 seen.add(u)
-                u = parent[u]
-            return u
+                st, inp = producer[u]
+                ch.append((st, inp))
+                u = inp[2] if isinstance(inp, tuple) else inp
+            return ch, u
 
-        entries: dict = {}
         for rec in tr.steps:
             if rec[0] == "enter" and rec[1] in maxrec and isinstance(rec[2], tuple) and rec[3] == 0:
-                key = (rec[1], root(rec[2][2]))
-                entries[key] = entries.get(key, 0) + 1
-        # lineages on which an invocation suspended in wait_for_event (its replay is a fresh EventAttempt: classifying fact)
-        waited = {root(rec[2][2] if isinstance(rec[2], tuple) else rec[2]) for rec in tr.steps
-                  if rec[0] == "exit" and rec[5].get("status") == "raise:WaitingForEvent"}
-        for (h, r), n in entries.items():
-            if n > maxrec[h]:
-                sig = "C08/handler_entered_beyond_budget" + (":lineage_suspended_in_wait" if r in waited else "")
-                out.append(Violation(sig, f"handler {h} (max_recoveries={maxrec[h]}) was entered {n} times for the lineage of event {r}", _replay(tr)))
-                return out
+                h, fstep, fuid = rec[1], rec[2][1], rec[2][2]
+                ch, r = chain_of(fuid)
+                n = 1 + sum(1 for st, _inp in ch if st == h)
+                if n > maxrec[h]:
+                    # ... the failing invocations themselves and those whose failures the handlers on the chain handled
+                    waited = (fstep, fuid) in suspended or any(x in suspended or (isinstance(x[1], tuple) and (x[1][1], x[1][2]) in suspended) for x in ch)
+                    sig = "C08/handler_entered_beyond_budget" + (":lineage_suspended_in_wait" if waited else "")
+                    out.append(Violation(sig, f"handler {h} (max_recoveries={maxrec[h]}) was entered {n} times for the lineage of event {r}", _replay(tr)))
+                    return out
     # per lineage: recovery counts never exceed the budget anywhere in the state
     for c in _runner_calls(tr):
         if c.after is None:
